@@ -179,13 +179,16 @@ pub fn run(ctx: &Ctx) {
         run.mark_nontrivial(hash_case(&names, &Cfg::new(0)));
         let expect = to_python(&lib);
         let out = r["out"].as_str().unwrap_or("");
+        let styles_ok = r["out_chain_original"].as_str() == Some(out) && r["out_chain_last"].as_str() == Some(out);
         if r.get("error").is_some() || out != expect || r["out_again"].as_str() != Some(out) {
             run.violation(viol("C14", "py", format!("python-history-differs last_op={}", names.last().cloned().unwrap_or_default()), &hist_input, &Cfg::new(0), out, json!({"history": names, "expected": expect, "library": lib, "error": r.get("error")})));
+        } else if !styles_ok {
+            run.violation(viol("C14", "py", format!("python-chained-calls-differ last_op={}", names.last().cloned().unwrap_or_default()), &hist_input, &Cfg::new(0), out, json!({"history": names, "expected": expect, "statements": out, "chain_build_on_original": r["out_chain_original"], "chain_build_on_last_returned": r["out_chain_last"]})));
         } else if run.want_sample() && h.len() == depth {
             run.sample(json!({"history": names, "python": out}));
         }
     }
-    run.space(json!({"engine": "call histories on the real extension: every sequence of setter calls (16-symbol alphabet incl. escape(False/True), thresholds, rejected threshold calls, build) up to the depth bound; expected = real Rust builder driven by the same sequence", "depth": depth, "histories": histories.len()}));
+    run.space(json!({"engine": "call histories on the real extension: every sequence of setter calls (16-symbol alphabet incl. escape(False/True), thresholds, rejected threshold calls, build) up to the depth bound, each in three calling styles (statements; chained through the returned objects with build() on the original; chained with build() on the last returned object); expected = real Rust builder driven by the same sequence", "depth": depth, "histories": histories.len()}));
     for (id, (t, c)) in cases.iter().enumerate() {
         run.eval();
         if t.iter().any(|s| !s.is_ascii()) {
